@@ -525,6 +525,87 @@ def cases(which):
         add("SigmaZ(absolute=True).apply[batch]", [("samples", (B, nv), "bits")],
             lambda samples: SigmaZ(absolute=True).apply(None, samples), lambda samples: G.build((B,), lambda t: G.fn("abs", mz(samples, t))))
 
+    if which in ("observables", "all"):
+        # ---- SigmaX / SigmaY (C08): the loop over the sites under a loop contract, every chain length and batch size ---------
+        from qv import astvc
+
+        def psi_terms(p, kind):
+            """psi(row) as (re, im) for a batch given element-wise"""
+            def en_(Wm, bm, cm, row, t):
+                return -(G.sum_over(nv, lambda i: row(t, i) * bm(i)) +
+                         G.sum_over(nh, lambda j: G.fn("softplus", cm(j) + G.sum_over(nv, lambda i: Wm(j, i) * row(t, i)))))
+
+            def psi_(row, t):
+                a = G.fn("exp", -en_(p["W"], p["b"], p["c"], row, t) / 2)
+                if kind == "positive":
+                    return (a, G.ZERO)
+                ph = -en_(p["Wp"], p["bp"], p["cp"], row, t) / 2
+                return (a * G.fn("cos", ph), a * G.fn("sin", ph))
+            return psi_
+
+        def site_term(letter, p, kind, s):
+            """the summand of site k for sample t: psi(s with spin k flipped) [times i * (+-1) for Y]"""
+            psi_ = psi_terms(p, kind)
+
+            def f(k, t):
+                flipped = lambda t_, i: G.delta(i, k) * G.fn("abs", s(t_, k) - 1) + (1 - G.delta(i, k)) * s(t_, i)      # noqa: E731
+                re_, im_ = psi_(flipped, t)
+                if letter == "X":
+                    return (re_, im_)
+                cf = 2 * s(t, k) - 1
+                return (-im_ * cf, re_ * cf)
+            return f
+
+        def sigma_call(letter, kind):
+            def call(samples, **p):
+                from qucumber.observables import SigmaX, SigmaY
+                from qucumber.nn_states import PositiveWaveFunction, ComplexWaveFunction
+                obs = {"X": SigmaX, "Y": SigmaY}[letter]()
+                st = _state(PositiveWaveFunction, rbm_am=binary(p["W"], p["b"], p["c"])) if kind == "positive" else \
+                    _state(ComplexWaveFunction, rbm_am=binary(p["W"], p["b"], p["c"]), rbm_ph=binary(p["Wp"], p["bp"], p["cp"]))
+                if not _is_g(samples):
+                    return obs.apply(st, samples)
+                vc = astvc.VC.cur()
+
+                def S(env, bound):
+                    f = site_term(letter, p_vals, kind, G.val_of(env["samples"]))
+                    return cbuild((B,), lambda t: (G.partial_sum(nv, bound, lambda k: f(k, t)[0]), G.partial_sum(nv, bound, lambda k: f(k, t)[1])))
+                p_vals = {k_: G.val_of(v_) for k_, v_ in p.items()}
+
+                def invariant(env, i, n):
+                    ok = G.equal_nf(env["numer_sum"], S(env, G.loop_bound(i, nv)))
+                    if not ok:
+                        raise G.LoopBroken("the body does not add exactly the term of site i to numer_sum")
+                    return [("numer_sum holds the terms of the sites before i", True)]
+
+                def havoc_locals(env, i, n):
+                    G.write(env["numer_sum"], S(env, G.loop_bound(i, nv)), "loop cut point")
+                    return {}
+                spec = astvc.LoopSpec(invariant, havoc_locals=havoc_locals, name="sites")
+                f_ = astvc.load(type(obs).apply, {0: spec}, vc, None, cls=type(obs), name="Sigma%s.apply" % letter)[0]
+                return f_(obs, st, samples)
+            return call
+
+        def sigma_spec(letter, kind):
+            def spec(samples, **p):
+                f = site_term(letter, p, kind, samples)
+                psi_ = psi_terms(p, kind)
+
+                def val(t):
+                    num = (G.sum_over(nv, lambda k: f(k, t)[0]), G.sum_over(nv, lambda k: f(k, t)[1]))
+                    den = psi_(samples, t)
+                    inv_ = G.fn("inv", den[0] * den[0] + den[1] * den[1])
+                    return (num[0] * den[0] + num[1] * den[1]) * inv_ * G.fn("inv", G.to_E(G.size_obj(nv)))
+                return G.build((B,), val)
+            return spec
+        for letter in ("X", "Y"):
+            for kind, ps in (("positive", P_BIN), ("complex", P_BIN + P_PH)):
+                if letter == "Y" and kind == "positive":
+                    continue
+                add("Sigma%s.apply[%s wavefunction] == (1/n) sum over sites of Re( <flipped|psi> coefficient / psi(s) )" % (letter, kind),
+                    ps + [("samples", (B, nv), "bits")], sigma_call(letter, kind), sigma_spec(letter, kind))
+                out[-1].pre = lambda: G.require_at_least(nv, 1)
+
     if which in ("metrics", "all"):
         # ---- training statistics without measurement bases (C10): every size of the space and of the data set ---------
         from qucumber.utils import training_statistics as ts
